@@ -107,7 +107,16 @@ def obs_of(res):
 def gridded_tests():
     from csep.core import poisson_evaluations as pe, binomial_evaluations as be, brier_evaluations as br
     S = dict(num_simulations=5, seed=1)
+    S0 = dict(num_simulations=5, seed=0)         # the smallest seed value is a seed like any other
     return [
+        ('poisson_evaluations.likelihood_test[seed=0]', lambda f, g, c: pe.likelihood_test(f, c, **S0), 'sim'),
+        ('poisson_evaluations.conditional_likelihood_test[seed=0]', lambda f, g, c: pe.conditional_likelihood_test(f, c, **S0), 'sim'),
+        ('poisson_evaluations.spatial_test[seed=0]', lambda f, g, c: pe.spatial_test(f, c, **S0), 'sim'),
+        ('poisson_evaluations.magnitude_test[seed=0]', lambda f, g, c: pe.magnitude_test(f, c, **S0), 'sim'),
+        ('binomial_evaluations.binary_spatial_test[seed=0]', lambda f, g, c: be.binary_spatial_test(f, c, **S0), 'sim'),
+        ('binomial_evaluations.binary_conditional_likelihood_test[seed=0]', lambda f, g, c: be.binary_conditional_likelihood_test(f, c, **S0), 'sim'),
+        ('brier_evaluations.brier_score_test[seed=0]', lambda f, g, c: br.brier_score_test(f, c, **S0), 'sim'),
+    ] + [
         ('poisson_evaluations.number_test', lambda f, g, c: pe.number_test(f, c), 'analytic'),
         ('poisson_evaluations.likelihood_test', lambda f, g, c: pe.likelihood_test(f, c, **S), 'sim'),
         ('poisson_evaluations.conditional_likelihood_test', lambda f, g, c: pe.conditional_likelihood_test(f, c, **S), 'sim'),
@@ -132,6 +141,8 @@ def catalog_tests():
         ('catalog_evaluations.pseudolikelihood_test', lambda f, c: ce.pseudolikelihood_test(f, c, verbose=False), 'free'),
         ('catalog_evaluations.resampled_magnitude_test', lambda f, c: ce.resampled_magnitude_test(f, c, seed=1), 'sim'),
         ('catalog_evaluations.MLL_magnitude_test', lambda f, c: ce.MLL_magnitude_test(f, c, seed=1), 'sim'),
+        ('catalog_evaluations.resampled_magnitude_test[seed=0]', lambda f, c: ce.resampled_magnitude_test(f, c, seed=0), 'sim'),
+        ('catalog_evaluations.MLL_magnitude_test[seed=0]', lambda f, c: ce.MLL_magnitude_test(f, c, seed=0), 'sim'),
     ]
 
 
@@ -259,6 +270,28 @@ def run_case(case):
                                f'cell perm {perm}: stat {got["stat"]} q {got["q"]} vs stat {want["stat"]} q {want["q"]}', dict(perm=list(perm), what='shared'))
             # (e) the two forecasts of a comparison store the SAME cells in DIFFERENT orders (each consistent with its own region)
             pair_tests = [t for t in tests if t[0].rsplit('.', 1)[1] in ('paired_t_test', 'w_test', 'binary_paired_t_test')]
+            # (f) ONE benchmark forecast and ONE catalog object: compared once, then the catalog's events are re-ordered IN PLACE
+            #     (catalog.catalog = catalog.catalog[perm]) and the same benchmark is compared with a fresh forecast
+            for p in sorted(set(itertools.permutations(range(len(obs_pairs))))):
+                reg = region_(ident)
+                bench = gfc_(rg, ident, reg, 'B')
+                cat = fixtures.catalog(events_(obs_pairs), region=reg)
+                states += 1
+                nontriv += 1
+                for site, fn, kind_ in pair_tests:
+                    call(fn, gfc_(rf, ident, reg, 'A'), bench, cat)
+                cat.catalog = cat.catalog[list(p)]
+                for site, fn, kind_ in pair_tests:
+                    got = call(fn, gfc_(rf, ident, reg, 'A2'), bench, cat)
+                    evals += 1
+                    want = base[site]
+                    if 'exc' in (got or {}) or 'exc' in (want or {}):
+                        if got != want:
+                            report(site, 'exception-after-reordering-the-catalog-in-place', 'events,reused-benchmark', f'{got} vs {want} perm={p}', dict(perm=list(p), what='inplace'))
+                        continue
+                    if not (close(got['stat'], want['stat']) and close(got['q'], want['q']) and close(got['dist'], want['dist'])):
+                        report(site, 'statistic-changes-when-the-catalog-is-reordered-in-place-between-comparisons', 'events,reused-benchmark',
+                               f'event perm {p}: stat {got["stat"]} q {got["q"]} dist {got["dist"]} vs stat {want["stat"]} q {want["q"]} dist {want["dist"]}', dict(perm=list(p), what='inplace'))
             for perm in itertools.permutations(range(4)):
                 for which in ('benchmark-reordered', 'forecast-reordered'):
                     pa, pb = (ident, perm) if which == 'benchmark-reordered' else (perm, ident)
